@@ -188,6 +188,22 @@ def leave (d : Design) (os : OS) (p : ExitPath) (c : ChildSpec) (l : Load) : Opt
     let t := drainPhase c (finish d os p { c with exited := c.exited || died, termDelay := term })
     some { signals := t.signals.map (fun x => (f + x.1, x.2)), duration := f + t.duration, child := t.child }
 
+/-! ## Settings of the client that the exit does not consult
+
+The protocol version the handshake settled on (with or without JSON-RPC batching — it decides whether the reader
+answers an incoming batch with an error on the child's stdin) and whatever the reader or writer task is in the
+middle of when the exit begins: the exit cancels both tasks and proceeds. -/
+
+structure ClientSettings where
+  /-- the negotiated protocol version, if any -/
+  version : Option String
+  /-- the reader is in the middle of writing a batch-rejection to a child that does not read -/
+  readerWriting : Bool
+  deriving DecidableEq, Repr
+
+def leaveWith (_s : ClientSettings) (d : Design) (os : OS) (p : ExitPath) (c : ChildSpec) (l : Load) : Option Trace :=
+  leave d os p c l
+
 /-! ## Several sessions on one client object
 
 A `StdioClient` (and a `StdioTransport`) can be entered again after it has been left: entering
